@@ -159,6 +159,23 @@ def check_bytes(case):
         dersig[positions[m["pos"] % len(positions)]] ^= 1 << (m["bit"] % 8)
     elif kind == "neg-s":
         dersig = bytearray(der.encode(rs[0], N - rs[1]))
+    elif kind == "forge-x0":
+        # a key with x = 0 is not on secp256k1, but under the a = 0 formulas (0, y) has order 3 for ANY y, so u2*P vanishes
+        # whenever u2 = 0 (mod 3): grind the nonce until it does, then (r, s) = (x(aG), z/a) "verifies" without a secret for
+        # a verifier that skips the on-curve test of the public key. The property requires rejection.
+        a = k
+        for _ in range(64):
+            Ra = ec.mul(a % N or 1, ec.G)
+            r_f = Ra[0] % N
+            s_f = (z % N) * pow(a % N or 1, -1, N) % N
+            if r_f and s_f and (r_f * pow(s_f, -1, N) % N) % 3 == 0:
+                dersig = bytearray(der.encode(r_f, s_f))
+                break
+            a += 1
+        form = m["pos"] % 3
+        ybytes = (m["pos"] * 0x9E3779B97F4A7C15 % P or 1).to_bytes(32, "big")
+        pk = bytearray((b"\x04" + bytes(32) + ybytes) if form == 0 else (bytes([2 + form % 2]) + bytes(32)))
+        label = "forged-under-x0-key"
     elif kind == "infinity":
         # keep (r, s) and the message, swap in the key P = (-z/r)G: then u1*G + u2*P is the point at infinity
         d_inf = (-z) * pow(rs[0], -1, N) % N
@@ -296,7 +313,7 @@ def verify_cases(draw):
 
 @st.composite
 def bytes_cases(draw):
-    kind = draw(st.sampled_from(["none", "msg", "flag", "pk-byte", "pk-byte", "pk-hybrid", "pk-len", "pk-x>=p", "pk-other", "der-value", "der-value", "der-struct", "der-struct", "neg-s", "infinity"]))
+    kind = draw(st.sampled_from(["none", "msg", "flag", "pk-byte", "pk-byte", "pk-hybrid", "pk-len", "pk-x>=p", "pk-other", "der-value", "der-value", "der-struct", "der-struct", "neg-s", "infinity", "forge-x0"]))
     m = {"kind": kind, "pos": draw(st.integers(0, 200)), "bit": draw(st.integers(0, 7))}
     if kind == "flag":
         m["to"] = draw(st.sampled_from(FLAGS + [0, 4, 0x80, 0xFF]))
@@ -354,7 +371,7 @@ def targets(tier):
         Target("verify-secp", check_verify, strategy=lambda tier: verify_cases(), budget={"quick": 640, "thorough": 10000},
                required=["mut:s->n-s", "mut:z+n", "mut:u1G+u2P=infinity", "mut:other-key", "nt:expect-accept", "nt:expect-reject", "mut:flip-px"]),
         Target("sigverify-bytes", check_bytes, strategy=lambda tier: bytes_cases(), budget={"quick": 640, "thorough": 10000},
-               required=["mut:der-struct", "mut:der-value", "mut:pk-hybrid", "mut:pk-len-otherform", "mut:flag", "mut:msg", "mut:u1G+u2P=infinity", "nt:expect-accept", "nt:expect-reject", "nt:nonstandard-sighash-byte-00"]),
+               required=["mut:der-struct", "mut:der-value", "mut:pk-hybrid", "mut:pk-len-otherform", "mut:flag", "mut:msg", "mut:u1G+u2P=infinity", "mut:forged-under-x0-key", "nt:expect-accept", "nt:expect-reject", "nt:nonstandard-sighash-byte-00"]),
         Target("low-s", check_lows, strategy=lambda tier: lows_cases(), budget={"quick": 3000, "thorough": 40000},
                required=["nt:complement-short", "nt:complement-short-topbit", "nt:s-at-half", "nt:verified"]),
         Target("small-curve", check_small, enumerate_=enum_small, exhaustive=True),
